@@ -142,6 +142,8 @@ def subset_predicate(key, surname):
     if branch is None:
         raise Untranslatable('subset: `if parents:` branch not found')
     lam = [n for st in branch.body for n in ast.walk(st) if isinstance(n, ast.Lambda)]
+    if not lam:
+        return _subset_comprehension(branch, key, surname)
     if len(lam) != 1:
         raise Untranslatable(f'subset: {len(lam)} lambdas in the parents branch')
     lam = lam[0]
@@ -157,3 +159,49 @@ def subset_predicate(key, surname):
         raise Untranslatable('subset: surname is not built by construct()')
     env = {args[0]: (key, None), args[1]: surname}
     return _expr(lam.body, env)
+
+
+def _subset_comprehension(branch, key, surname):
+    """second accepted shape of the same predicate: a dict comprehension over
+    `from_table.items()` inside the loop over the parents, whose `if` clauses select
+    the keys; simple local assignments before it are evaluated (the one built by
+    construct() is the surname)"""
+    loops = [st for st in branch.body if isinstance(st, ast.For)]
+    if len(loops) != 1:
+        raise Untranslatable('subset: no single loop over the parents')
+    env = {}
+    comp = None
+    for st in loops[0].body:
+        comps = [n for n in ast.walk(st) if isinstance(n, ast.DictComp)]
+        if comps:
+            if comp is not None or len(comps) != 1:
+                raise Untranslatable('subset: more than one comprehension')
+            comp = comps[0]
+            continue
+        if isinstance(st, ast.Assign) and len(st.targets) == 1 and isinstance(st.targets[0], ast.Name):
+            v = st.value
+            if isinstance(v, ast.Call) and isinstance(v.func, ast.Name) and v.func.id == 'construct':
+                env[st.targets[0].id] = surname
+            else:
+                env[st.targets[0].id] = _expr(v, env)
+        elif isinstance(st, (ast.Pass, ast.Expr)):
+            continue
+        else:
+            raise Untranslatable('subset: statement ' + type(st).__name__)
+    if comp is None or surname not in [v for v in env.values() if v is surname]:
+        raise Untranslatable('subset: no comprehension / surname not built by construct()')
+    if len(comp.generators) != 1:
+        raise Untranslatable('subset: nested comprehension')
+    gen = comp.generators[0]
+    it = gen.iter
+    if not (isinstance(it, ast.Call) and isinstance(it.func, ast.Attribute) and it.func.attr == 'items'):
+        raise Untranslatable('subset: comprehension does not iterate over .items()')
+    if isinstance(gen.target, ast.Tuple) and len(gen.target.elts) == 2 and all(isinstance(x, ast.Name) for x in gen.target.elts):
+        env[gen.target.elts[0].id] = key
+    elif isinstance(gen.target, ast.Name):
+        env[gen.target.id] = (key, None)
+    else:
+        raise Untranslatable('subset: comprehension target')
+    conds = [_expr(c, env) for c in gen.ifs]
+    conds = [z3.BoolVal(c) if isinstance(c, bool) else c for c in conds]
+    return z3.And(*conds) if conds else z3.BoolVal(True)
